@@ -6,12 +6,11 @@ From MT.Proofs Require Import WF Aeq Loops View RefineSimple RefineErase RefineS
 Import ListNotations.
 Open Scope N_scope.
 
+Lemma existsb_add0 r l : existsb (fun y => y =? r) l = existsb (fun y => y + 0 =? r) l.
+Proof. induction l as [|a l IH]; [reflexivity|]. cbn [existsb]. rewrite IH. replace (a + 0) with a by lia. reflexivity. Qed.
 Lemma existsb_range_eq lo hi r : existsb (fun y => y =? r) (range lo hi) = (lo <=? r) && (r <? hi).
 Proof.
-  pose proof (existsb_range_off 0 lo hi r) as E.
-  assert (X : existsb (fun y => y =? r) (range lo hi) = existsb (fun y => y + 0 =? r) (range lo hi)).
-  { apply existsb_ext_in || (induction (range lo hi) as [|a l IH]; [reflexivity|cbn; rewrite IH; replace (a + 0) with a by lia; reflexivity]). }
-  rewrite X, E. bdestruct; cbn; try reflexivity; lia.
+  rewrite existsb_add0, existsb_range_off. bdestruct; cbn; try reflexivity; lia.
 Qed.
 
 Section S.
@@ -147,7 +146,7 @@ Proof.
   intros W. unfold linefeed, a_linefeed.
   pose proof (ref_index_gen s W) as G.
   assert (E : has_mode (index s) LNM = amode (a_index (abs s)) LNM).
-  { unfold has_mode, amode. rewrite index_mode. symmetry. apply (q_mode _ _ (Aeq_sym _ _ G)). }
+  { unfold has_mode, amode. pose proof (q_mode _ _ G LNM) as Q. cbn [abs a_mode] in Q. exact Q. }
   rewrite E. destruct (amode (a_index (abs s)) LNM); [|exact G].
   destruct G as [q1 q2 q3 q4 q5 q6 q7 q8 q9 q10 q11 q12 q13 q14 q15].
   constructor; try assumption. unfold carriage_return, a_cr. snorm. cbn [a_cur] in q4. rewrite <- q4. reflexivity.
